@@ -31,6 +31,10 @@ async def debounced_sorted_prefix(
     """
 
     buffer: list[T] = []
+    # Pass-through starts only once the "__COMPLETE__" marker has been consumed
+    # and the buffer flushed. `debouncer.is_complete` flips earlier than that, so
+    # testing it here would let an item overtake the still-buffered sorted burst.
+    flushed = False
     debouncer = Debouncer(debounce_seconds, max_window_seconds)
     merged = merge_generators(inner, debouncer.aiter())
 
@@ -40,10 +44,11 @@ async def debounced_sorted_prefix(
             for buffered_item in buffer:
                 yield buffered_item
             buffer = []
+            flushed = True
         else:
             # item is T after checking != "__COMPLETE__"
             actual_item = cast(T, item)
-            if debouncer.is_complete:
+            if flushed:
                 yield actual_item
             else:
                 debouncer.extend_window()
